@@ -70,8 +70,16 @@ def run_history(case):
                 pass
             del c
 
+        helper_base = [fx.helper_fds() if not inproc else None]
+
         def audit(tag):
             if not inproc:
+                # forking server: the parent process must not keep descriptors of clients it handed to children
+                if fx.closed or helper_base[0] is None:
+                    return
+                if not servers.wait_until(lambda: (fx.helper_fds() or 0) <= helper_base[0], 5.0):
+                    problems.append(("leftover", "forking parent keeps descriptors of clients it handed to children",
+                                     [fx.helper_fds(), helper_base[0], tag]))
                 return
             srv = fx.server
             want_fds = len(baseline) + (0 if fx.closed or (case["server"] == "oneshot" and stats["departures"]) else 1) + 2 * len(clients)
@@ -161,6 +169,15 @@ def run_history(case):
                 call(stp[1] % 5)
             elif op == "leave":
                 leave(stp[1] % 5, stp[2])
+            elif op == "flash" and case["server"] != "oneshot":
+                # connect and reset at once, several times: the client may be gone before anybody looks at its socket
+                for _ in range(6):
+                    try:
+                        s = fx.raw_socket(magic=False)
+                        servers.abrupt_close(s)
+                    except (socket.error, OSError):
+                        pass
+                stats["flash"] = stats.get("flash", 0) + 1
             elif op == "audit":
                 audit("mid-history")
             elif op == "close":
@@ -196,7 +213,7 @@ def check(case, rec):
             problems = []
         else:
             problems = again
-    nontrivial = stats["connected_at_close"] >= 1 or (stats["departures"] >= 2 and stats["abrupt"] >= 1)
+    nontrivial = stats["connected_at_close"] >= 1 or (stats["departures"] >= 2 and stats["abrupt"] >= 1) or stats.get("flash", 0) > 0
     classes = ["server:" + case["server"], "transport:" + case["transport"], "connected-at-close:%d" % min(stats["connected_at_close"], 3),
                "abrupt-departures:%d" % min(stats["abrupt"], 2)]
     rec.case(case, nontrivial, classes)
@@ -206,7 +223,8 @@ def check(case, rec):
 def cases(kinds):
     slot = st.integers(0, 4)
     step = st.one_of(st.tuples(st.just("connect"), slot), st.tuples(st.just("connect"), slot), st.tuples(st.just("call"), slot),
-                     st.tuples(st.just("leave"), slot, st.booleans()), st.tuples(st.just("audit"), st.just(0))).map(list)
+                     st.tuples(st.just("leave"), slot, st.booleans()), st.tuples(st.just("audit"), st.just(0)),
+                     st.tuples(st.just("flash"), st.just(0))).map(list)
     body = st.lists(step, min_size=1, max_size=12)
     constructed = st.tuples(st.lists(step, max_size=4), st.booleans(), st.lists(step, max_size=4)).map(
         lambda t: [["connect", 0], ["connect", 1], ["connect", 2]] + t[0] + [["leave", 0, t[1]], ["leave", 1, not t[1]], ["audit", 0]] + t[2])
